@@ -14,6 +14,8 @@ CONFIG = {
     "signature": _sig,
     "trivial": _trivial,
     "rule": "real plugin subprocesses (kit plugin re-executed from the harness binary) over netrpc, grpc, grpc+mux, each with and without AutoMTLS: "
+            "5 late-output scripts (output on both streams, then the plugin is idle for 6.5 s with the connection up, then output again on both streams; "
+            "thorough tier also 31 s and 61 s; they run concurrently with the rest) + "
             "6 ladder scripts (every size 0,1,1023,1024,1025,4095,4096,4097,10000,70000 once per stream) + seeded random scripts of 1-30 Emit calls "
             "(sizes from that set, payload kinds rng/NUL/invalid-UTF-8/counter/newline-pipe), interleaved with Double calls, concurrent Emits on different streams, "
             "optional pre-attach burst written to os.Stdout/os.Stderr right after Serve re-points them and before the host calls Client(); "
@@ -28,10 +30,13 @@ CONFIG = {
         "it is not observable by the harness, so the oracle draws cuts and interleaving from the case's cseed and the result is determined (grpcExec_exact / rpcExec_exact)",
         "writes to one stream are issued sequentially by the plugin (concurrent Emit calls only on different streams), so per-stream write order is defined",
         "nothing is claimed about data in flight when the connection dies or the plugin is killed",
+        "time: the model stamps every chunk with the time it is sent (ms after the host attached); the lifetime of the gRPC stdio stream is the extracted fact "
+        "streamCtxBound (the context of the host's StreamStdio call is the client's done-context, no WithTimeout/WithDeadline on the way); the correspondence run "
+        "samples idle periods of 6.5 s (quick) and 31 s / 61 s (thorough) only — a bound longer than that is caught by the fact, not by the run",
         "payloads on the case line are generator specs kind:seed:len; the Go harness and the Lean oracle implement the same generator (SplitMix64) and the same digest (FNV-1a 64 + length); "
         "the property predicate compares the received bytes themselves",
     ],
     "timeout": {"quick": 900, "thorough": 3000},
-    "level_text": "Lean theorems over a model of both stdio paths (Model/Stdio.lean): for every sequence of writes on stdout and stderr, every re-chunking the pipe/bufio reader may deliver (pieces of 1..1024 bytes), and every interleaving chosen by StreamStdio's select, the bytes delivered to SyncStdout (resp. SyncStderr) are exactly the concatenation of what was written to stdout (resp. stderr) \u2014 no loss, duplication, reordering or crossing (per_stream_exact_grpc / _netrpc), and data written before the host attaches is delivered first (before_attach_retained_*); seven witness theorems show each extracted fact (exact slice sent, channel tags, client mapping, skip-empty test, net/rpc stream indices on both sides) is necessary. Facts are traced by data flow from os.Stdout to the sync writer on every run; ~66 real plugin sessions per run (netrpc, grpc, grpc+mux, each with and without AutoMTLS) emit ~1400 writes of boundary sizes with pre-attach bursts and are compared byte for byte.",
+    "level_text": "Lean theorems over a model of both stdio paths (Model/Stdio.lean): for every sequence of writes on stdout and stderr, every re-chunking the pipe/bufio reader may deliver (pieces of 1..1024 bytes), and every interleaving chosen by StreamStdio's select, the bytes delivered to SyncStdout (resp. SyncStderr) are exactly the concatenation of what was written to stdout (resp. stderr) \u2014 no loss, duplication, reordering or crossing (per_stream_exact_grpc / _netrpc), and data written before the host attaches is delivered first (before_attach_retained_*); output written after an idle period of any length is still delivered as long as the connection is alive, because the stdio stream's context is the client's done-context without a deadline (late_output_delivered_grpc, per_stream_exact_grpc_timed; witness stream_deadline_witness: a 5 s timeout context drops what is written at 6.5 s); eight witness theorems show each extracted fact (exact slice sent, channel tags, client mapping, skip-empty test, net/rpc stream indices on both sides) is necessary. Facts are traced by data flow from os.Stdout to the sync writer on every run; ~71 real plugin sessions per run (5 of them with output after a 6.5 s idle period) (netrpc, grpc, grpc+mux, each with and without AutoMTLS) emit ~1400 writes of boundary sizes with pre-attach bursts and are compared byte for byte.",
     "level_note": "Partial: in-order exactly-once delivery of messages on one gRPC stream / bytes on one yamux stream, and the OS pipe, are assumed (the model's transport is the identity). Payloads are described by generator specs (kind:seed:len) shared by Go and Lean rather than hex, because they reach megabytes.",
 }
